@@ -6,6 +6,9 @@ HERE = os.path.dirname(os.path.dirname(os.path.abspath(__file__)))
 TECH = "deterministic simulation with fault injection: seeded search over operation/fault histories against a reference model, ddmin-minimised replay files"
 
 CLAIMED = {
+ "C19": dict(section="5.9", level="exploration",
+   text="Seeded programs of LazyList operations (map, per-element map, integer/negative/NumPy index, slices, index arrays and iterables, repeat, + with lazy and plain lists, copy, len, iteration, reversed; nesting to depth 6) over instrumented base lists and over video-backed lists produced by the real import_video / FFMpegVideoReader code running against an in-process fake ffmpeg peer, checked step by step against an ordinary-list model of expression trees and an evaluation/IO event log: lengths and values equal, no evaluation, file open, spawn or pipe read during any non-reading operation, a read causes exactly the evaluations its element depends on (inner before outer), receivers never change. Faults are placed inside reads (element callable or mapped function raises, spawn failure, pipe EIO, killed process, truncated stream, landmark-file EIO, reap moment of the finished process as the one schedule choice): a faulted read may fail but never returns a wrong element and later un-faulted reads recover. Sampling, not proof.",
+   note="Trusted: the harness' list model and event accounting; the fake ffmpeg is idealised (frame-accurate -ss, short reads only at end of stream), so defects that depend on real ffmpeg seeking are out of reach; LazyList lengths are capped at 40 and nesting depth at 6."),
  "C20": dict(section="5.10", level="exploration",
    text="Seeded histories over the one nondeterminism source behind this property - the global NumPy RNG read by Rotation.axis_and_angle_of_rotation - with the RNG seeded, logged, advanced by foreign draws and re-seeded between queries; every ccw constructor (2D, 3D about x/y/z, degrees/radians, all quadrants, negative, beyond one turn) is compared with the simulator's own Rodrigues matrix, every reported axis/angle must reconstruct the rotation (sign included) whatever the RNG history, quaternions round-trip both ways. Sampling, not proof.",
    note="Covers only the first sentence of C20 (ccw constructors, axis/angle, quaternion round trip): the about-centre helpers, the Scale factory and the texture-coordinate transforms are pure functions with no seam and are NOT checked; trusted: NumPy, the harness' Rodrigues formula. One known finding (2D angle sign) is listed in known_findings.json."),
